@@ -79,6 +79,10 @@ CLAIMS = {
    technique="runtime monitoring with fault enumeration: federation responses assembled from simulated, really signed room histories receive every single-position fault (bad signature, event not allowed by its auth events, auth event removed, event of another room) and sampled multi-fault sets under three event-provider behaviours; the monitor compares what CheckStateResponse / CheckSendJoinResponse / VerifyEventAuthChain / VerifyAuthRulesAtState / LoadAndVerify return with the ground truth of the injected faults and the recursive definitions",
    text="For each simulated room the fault-free /state-shaped response, every position x fault kind (rooms up to 24 events; sampled above), multi-fault subsets of 2-5 and whole-response faults (non-state event, duplicate key, malformed element, empty) are checked: exactly the events with a bad signature (judged per event ID) or failing the auth check against their available auth events must be missing from the result. send_join: joins built against the resident's state and against a stale view, so that 'allowed by own auth events' and 'allowed by returned state' vary independently. Auth chain: a removed or disallowed link at any depth, provider errors. Auth at state: partial knowledge of the auth events with and without the validation shortcut. LoadAndVerify: one result per input, classified by the first failing check.",
    note=TB + "the library's Allowed on fresh providers as primitive (C07); simulator events carry every protocol-required signature; abstains on providers returning another event than asked."),
+ "C19": dict(level="exploration", design="§4 C19",
+   technique="runtime monitoring under the Go race detector: recorded DNS-cache lookup histories checked offline for per-host linearizability with porcupine and online for expiry / host identity / size bound (hook reads under the cache mutex); concurrent KeyRing batches and DirectKeyFetcher pools over scripted key clients compared with the sequential expectation; concurrent round trips through one transport cache to identifying TLS listeners; simultaneous first-time accessor calls on a shared event",
+   text="Every workload runs in a -race build with GORACE logging; any report in a library frame is a violation (deduplicated by function pair). DNS cache: hundreds of short histories (<= 200 lookups, 2-32 goroutines, 3-6 hosts, size 1-4, lifetimes 20-80 ms) with a resolver that returns a unique address per call after a random delay or fails, so that a cached answer identifies the miss that installed it; evidence counts histories with overlapping misses on one host, with eviction pressure and spanning an expiry. Key ring: overlapping batches from up to 16 goroutines against servers that are reachable, notary-only or down; FetchKeys with 1-300 servers. Transport cache: up to 32 goroutines x 2-6 httptest TLS listeners. 'Never deadlocks' is observed as bounded progress only.",
+   note=TB + "Go race detector; porcupine v1.3.0 (timeout = inconclusive); wall clock only in the one-sided stale-entry check; interleavings are sampled by the Go scheduler plus injected latencies."),
 }
 NOT_YET = "check not built yet (work in progress; see DESIGN.md §4 for the planned monitor)"
 
